@@ -10,12 +10,15 @@ import (
 func (p *Pool) Send(ctx context.Context, e Event) {
 	e.ctx = ctx
 
-	p.sendWg.Add(1)
-	defer p.sendWg.Done()
-
+	p.sendM.RLock()
 	if p.ctx.Err() != nil {
+		p.sendM.RUnlock()
 		return
 	}
+	p.sendWg.Add(1)
+	p.sendM.RUnlock()
+	defer p.sendWg.Done()
+
 	verifhook.Count("wpool.accepted")
 
 	select {
